@@ -39,17 +39,27 @@ type FaultAt struct {
 }
 
 // Case is a complete, replayable history.
+// StartupCase is the C07 start-up scenario (see c07s_test.go)
+type StartupCase struct {
+	Size int    `json:"size"` // Pool object size
+	Pods int    `json:"pods"` // pods of the deployment asking for an IP one after the other
+	Slow string `json:"slow"` // resource whose initial list is slow ("" = none)
+	MS   int    `json:"ms"`
+}
+
 type Case struct {
-	Topo      Topo      `json:"topo"`
-	Configs   [][]PoolT `json:"configs,omitempty"` // alternative configurations for reload ops
-	WLs       []WL      `json:"wls"`
-	PoolObjs  []PoolObj `json:"pool_objs,omitempty"`
-	Ops       []Op      `json:"ops"`
-	Cloud     bool      `json:"cloud,omitempty"`
-	CloudFail []int     `json:"cloud_fail,omitempty"` // indexes of provider calls that fail cleanly
-	Lag       bool      `json:"lag,omitempty"`
-	FaultAt   *FaultAt  `json:"fault_at,omitempty"`
-	CrFail    []int     `json:"cr_fail,omitempty"` // indexes of custom-resource replica lookups that fail with an internal error
+	// Startup: not a history but a start-up scenario of C07
+	Startup   *StartupCase `json:"startup,omitempty"`
+	Topo      Topo         `json:"topo"`
+	Configs   [][]PoolT    `json:"configs,omitempty"` // alternative configurations for reload ops
+	WLs       []WL         `json:"wls"`
+	PoolObjs  []PoolObj    `json:"pool_objs,omitempty"`
+	Ops       []Op         `json:"ops"`
+	Cloud     bool         `json:"cloud,omitempty"`
+	CloudFail []int        `json:"cloud_fail,omitempty"` // indexes of provider calls that fail cleanly
+	Lag       bool         `json:"lag,omitempty"`
+	FaultAt   *FaultAt     `json:"fault_at,omitempty"`
+	CrFail    []int        `json:"cr_fail,omitempty"` // indexes of custom-resource replica lookups that fail with an internal error
 	// NoNameReuse: a pod name is used by one incarnation only (deployment pods get random name suffixes)
 	NoNameReuse bool `json:"no_name_reuse,omitempty"`
 }
@@ -135,6 +145,7 @@ type Exec struct {
 	ReloadTargets [][]PoolT
 	ConfAtOpStart []PoolT
 	LastQuiescent *Snapshot       // IPAM memory at the start of the current top-level op
+	CurSubs       []Op            // the sub-operations of the episode whose results are being handed to the observers (nil otherwise)
 	Reserved      map[string]bool // IPs an administrator currently reserves with a labelled FloatingIP
 	// MixedKeys: pod keys that at some point held IPs recorded with two different pod uids (an IP of an older
 	// incarnation re-allocated by the pod-IP sync of a stale update event); LastKey: last owner key seen per IP
@@ -916,6 +927,7 @@ func (x *Exec) runOne(i int, op Op) *vcore.Failure {
 	x.ReloadTargets = nil
 	x.ConfAtOpStart = x.ConfInForce
 	x.LastQuiescent = w.Snap()
+	x.CurSubs = nil
 	if op.K == "quiesce" {
 		return x.quiesce(i, op)
 	}
@@ -1178,6 +1190,7 @@ func (x *Exec) episode(i int, op Op) *vcore.Failure {
 	if stepFail != nil {
 		return stepFail
 	}
+	x.CurSubs = subs
 	for j, res := range results {
 		res.Concurrent = len(results) >= 2
 		subs[j].K = canonKind(subs[j].K)
